@@ -24,9 +24,9 @@ def registered_aes(prog) -> ClassInfo:
     return prog.cls(t.args[0])
 
 
-def _run(prog, fi, pol=None):
+def _run(prog, fi, pol=None, self_cls=None):
     ex = Exec(prog, policy=pol or (lambda e, f, d: False))
-    return ex, ex.run(fi)
+    return ex, ex.run(fi, self_cls=self_cls)
 
 
 def _feed_calls(res):
@@ -127,7 +127,8 @@ def adapter_rules(prog, chk, pid, want=None):
             chk.fail(P("adapter.%s" % name), cls.qualname + "." + name, "method missing", "", "registered AES class does not implement %s" % name)
             continue
         fi = r[1]
-        ex, res = _run(prog, fi, pol)
+        # (the method may live in a mixin of the registered class: it is interpreted on an object of the registered class, so that self.encrypt(...) is that class's)
+        ex, res = _run(prog, fi, pol, self_cls=cls)
         ex._final_heap = res.state.heap if res.state is not None else {}
         results[name] = (fi, ex, res)
     # ---- fresh mode object per call, built from (key, iv); no state kept on self/class/global
